@@ -12,7 +12,8 @@
    below 10^-400, where the float64 is +-0 anyway); the float64 is the binary64 nearest to q (strconv's correctly
    rounded conversion is trusted; the correspondence checks |q - f| <= f * 2^-52).
 
-   go_fmt_v x = Some s: only for integer magnitudes below 2^53 (exactly representable; shortest digits = the
+   go_fmt_v x = Some s (only reached by baseTable.CellString for tables NOT parsed from CSV text since b0400cb; kept
+   as the model of fmt %v for the fallback branch): only for integer magnitudes below 2^53 (exactly representable; shortest digits = the
    integer's digits without trailing zeros), +-Inf and NaN; '%v' = strconv 'g' with shortest precision:
    exponent form as soon as the decimal exponent is >= 6 (x >= 1e6 prints as d.ddde+XX).
 
@@ -198,16 +199,3 @@ Definition fmt_agrees (fmt : num -> string) : Prop := forall x s, go_fmt_v x = S
 (* concrete instances (non-vacuity, refutation witnesses, executable correspondence) *)
 Definition model_cast : caster := fun s => match go_cast s with Some g => g | None => TText end.
 Definition model_fmt : num -> string := fun x => match go_fmt_v x with Some s => s | None => "<unmodelled>"%string end.
-
-(* What CellString gives back for a field that was loaded through the caster, as far as the model can tell. *)
-Definition rendered (s : string) : option string :=
-  match go_cast s with
-  | Some TText => Some s
-  | Some (TBool _) => Some EmptyString
-  | Some (TNum x) => go_fmt_v x
-  | None => None
-  end.
-
-(* The field is read back verbatim by CellString. *)
-Definition cast_stable (s : string) : bool :=
-  match rendered s with Some r => String.eqb r s | None => false end.
